@@ -588,7 +588,7 @@ class Wishbone2CSR(LiteXModule):
             # If no Wishbone bus provided, create it with default parameters.
             self.wishbone = Interface()
 
-        assert self.wishbone.data_width == self.csr.data_width
+        assert self.wishbone.data_width >= self.csr.data_width
 
         # # #
 
